@@ -116,6 +116,15 @@ TWO_T = ["SWAP"]
 ALL_UNITARY = ONE_Q + ONE_Q_P + CTL + CTL_P + ["XX", "SWAP", "CSWAP"]
 
 
+class NullModel:
+    """stands in for the model during the failing-input search (oracle only)"""
+    def ask(self, req):
+        return {}
+
+    def close(self):
+        pass
+
+
 def gspec(name, target, control=None, param=None, var=False):
     return {"n": name, "t": list(target) if isinstance(target, (list, tuple)) else [target],
             "c": None if control is None else (list(control) if isinstance(control, (list, tuple)) else [control]),
@@ -300,3 +309,60 @@ def tangelo_dump_to_specs(dump):
 def bits_lsq_index(idx, n):
     """model index (bit q = qubit q) -> Tangelo 'lsq_first' bitstring (qubit 0 first)"""
     return "".join(str((idx >> q) & 1) for q in range(n))
+
+
+def np_run_state(gates, n, psi0=None, desired=None):
+    """independent state-vector run of tangelo gates (bit q of the index = qubit q); MEASURE gates project on
+    the bits of `desired` (in order of appearance) and renormalise; returns (psi, success probability)"""
+    import numpy as np
+    psi = np.zeros(2 ** n, dtype=complex)
+    if psi0 is None:
+        psi[0] = 1
+    else:
+        psi[:] = psi0
+    idx = np.arange(2 ** n)
+    prob, k = 1.0, 0
+    I = {"H": np.array([[1, 1], [1, -1]]) / math.sqrt(2), "X": np.array([[0, 1], [1, 0]]), "Y": np.array([[0, -1j], [1j, 0]]), "Z": np.diag([1, -1]),
+         "S": np.diag([1, 1j]), "T": np.diag([1, cmath.exp(1j * math.pi / 4)])}
+    alias = {"CNOT": "X", "CX": "X", "CY": "Y", "CZ": "Z", "CH": "H", "CRX": "RX", "CRY": "RY", "CRZ": "RZ", "CPHASE": "PHASE"}
+    for g in gates:
+        name = g.name
+        if name == "MEASURE":
+            q = g.target[0]
+            want = int(desired[k]); k += 1
+            keep = ((idx >> q) & 1) == want
+            psi = np.where(keep, psi, 0)
+            p = float(np.vdot(psi, psi).real)
+            prob *= p
+            psi = psi / math.sqrt(p) if p > 1e-300 else psi
+            continue
+        cs = list(g.control) if g.control is not None else []
+        on = np.ones(2 ** n, dtype=bool)
+        for c in cs:
+            on &= ((idx >> c) & 1) == 1
+        th = float(g.parameter) if g.parameter != "" else None
+        new = psi.copy()
+        if name in ("SWAP", "CSWAP"):
+            a, b = g.target
+            src = idx.copy()
+            diff = ((idx >> a) & 1) != ((idx >> b) & 1)
+            src = np.where(diff, idx ^ (1 << a) ^ (1 << b), idx)
+            new = np.where(on, psi[src], psi)
+        elif name == "XX":
+            a, b = g.target
+            new = np.where(on, math.cos(th / 2) * psi - 1j * math.sin(th / 2) * psi[idx ^ (1 << a) ^ (1 << b)], psi)
+        else:
+            b = alias.get(name, name)
+            if b in I:
+                m = I[b]
+            else:
+                c, s = math.cos(th / 2), math.sin(th / 2)
+                m = {"RX": np.array([[c, -1j * s], [-1j * s, c]]), "RY": np.array([[c, -s], [s, c]]),
+                     "RZ": np.diag([cmath.exp(-1j * th / 2), cmath.exp(1j * th / 2)]), "PHASE": np.diag([1, cmath.exp(1j * th)])}[b]
+            for q in g.target:
+                bit = (idx >> q) & 1
+                r = m[bit, 0] * psi[idx & ~(1 << q)] + m[bit, 1] * psi[idx | (1 << q)]
+                new = np.where(on, r, psi)
+                psi = new
+        psi = new
+    return psi, prob
